@@ -2082,7 +2082,9 @@ impl<'a, R: FileManager> FrontendCtx<'a, R> {
             Some(its) => {
                 let mut args = vec![];
                 for ty in &its.params {
-                    let arg_ty = self.extract_type(ty, file.clone())?;
+                    // the arguments are written where the reference is (for `import("./f").G<A>`
+                    // that is the importing file, not the file G is looked up in)
+                    let arg_ty = self.extract_type(ty, anchor.f.clone())?;
                     args.push(arg_ty);
                 }
                 args
@@ -2753,7 +2755,8 @@ impl<'a, R: FileManager> FrontendCtx<'a, R> {
                         Some(its) => {
                             let mut args = vec![];
                             for ty in &its.params {
-                                let arg_ty = self.extract_type(ty, resolved.clone())?;
+                                // the arguments are written in the importing file
+                                let arg_ty = self.extract_type(ty, file.clone())?;
                                 args.push(arg_ty);
                             }
                             args
